@@ -76,6 +76,18 @@ def handle (j : Json) : Json :=
       ("probes", jarr ((probes p).map fun (i, e) => jobj [
         ("pos", jnat i),
         ("exec", jopt valJson (evalC p fuel (.module i) e)),
+        ("compl",
+          -- what jedi offers after `e.`: the union over the inferred shapes; only reported when
+          -- every shape is an instance or class of the analysed source
+          let shapes := mayE p fuel (.module i) e
+          if shapes.isEmpty || shapes.any (fun s => match s with
+              | .inst _ _ => false
+              | .cls _ => false
+              | _ => true) then .null
+          else jarr ((shapes.flatMap fun s => match s with
+              | .inst id _ => complNames p fuel true id
+              | .cls id => complNames p fuel false id
+              | _ => []).map jnat)),
         ("may", jarr ((mayE p fuel (.module i) e).map shapeJson))]))]
   | op => jobj [("error", jstr ("unknown op " ++ op))]
 
